@@ -357,25 +357,37 @@ Inductive cmd :=
 Record hstate := mkh { hp : params; hout : list str; herr : list str; hprinted : bool }.
 
 (** one argument from the command line; an argument that the flags did not
-    create, or a usage that ends the process, is outside the model: EOther *)
-Definition eval_cmd (f : N) (width : nat) (args : list arg) (s : hstate) (c : cmd) : res hstate :=
+    create, or a usage that ends the process, is outside the model: EOther.
+    [vh] / [vd]: the value the boolean flag arguments "print-hidden" /
+    "print-deprecated" assign (TypedArg< bool>: the negation of the variable at
+    the time the argument was created).  "help-short" / "help-long" are
+    TypedArgValue objects that check the original value: the second of them
+    throws std::runtime_error. *)
+Definition eval_cmd_gen (vh vd : bool) (f : N) (width : nat) (args : list arg) (s : hstate) (c : cmd)
+  : res hstate :=
   let p := hp s in
   match c with
   | CmdPrintHidden =>
       if has f hfArgHidden
-      then Ok (mkh (mkparams true (print_deprecated p) (cont p)) (hout s) (herr s) (hprinted s))
+      then Ok (mkh (mkparams vh (print_deprecated p) (cont p)) (hout s) (herr s) (hprinted s))
       else Err EOther
   | CmdPrintDeprecated =>
       if has f hfArgDeprecated
-      then Ok (mkh (mkparams (print_hidden p) true (cont p)) (hout s) (herr s) (hprinted s))
+      then Ok (mkh (mkparams (print_hidden p) vd (cont p)) (hout s) (herr s) (hprinted s))
       else Err EOther
   | CmdHelpShort =>
-      if has f hfUsageShort
-      then Ok (mkh (mkparams (print_hidden p) (print_deprecated p) CShort) (hout s) (herr s) (hprinted s))
+      if has f hfUsageShort then
+        match cont p with
+        | CAll => Ok (mkh (mkparams (print_hidden p) (print_deprecated p) CShort) (hout s) (herr s) (hprinted s))
+        | _ => Err ERuntime
+        end
       else Err EOther
   | CmdHelpLong =>
-      if has f hfUsageLong
-      then Ok (mkh (mkparams (print_hidden p) (print_deprecated p) CLong) (hout s) (herr s) (hprinted s))
+      if has f hfUsageLong then
+        match cont p with
+        | CAll => Ok (mkh (mkparams (print_hidden p) (print_deprecated p) CLong) (hout s) (herr s) (hprinted s))
+        | _ => Err ERuntime
+        end
       else Err EOther
   | CmdHelp =>
       if (has f hfHelpShort || has f hfHelpLong) && has f hfUsageCont then
@@ -392,21 +404,39 @@ Definition eval_cmd (f : N) (width : nat) (args : list arg) (s : hstate) (c : cm
       else Err EOther
   end.
 
-Fixpoint eval_cmds (f : N) (width : nat) (args : list arg) (s : hstate) (cs : list cmd) : res hstate :=
+(** after the repair (fix: create the flag arguments before the constructor
+    flags switch the display on): the arguments always switch the display on *)
+Definition eval_cmd := eval_cmd_gen true true.
+
+(** the pinned code: hfUsageHidden (hfUsageDeprecated) sets the variable
+    before "print-hidden" ("print-deprecated") is created, the argument then
+    switches the display off again *)
+Definition eval_cmd_pinned (f : N) :=
+  eval_cmd_gen (negb (has f hfUsageHidden)) (negb (has f hfUsageDeprecated)) f.
+
+Section Eval.
+Variable step : N -> nat -> list arg -> hstate -> cmd -> res hstate.
+
+Fixpoint eval_cmds_with (f : N) (width : nat) (args : list arg) (s : hstate) (cs : list cmd) : res hstate :=
   match cs with
   | [] => Ok s
-  | c :: r => do s' <- eval_cmd f width args s c; eval_cmds f width args s' r
+  | c :: r => do s' <- step f width args s c; eval_cmds_with f width args s' r
   end.
 
 (** Handler( flags); addArgument...; evalArguments: when the usage was printed
     the final checks are skipped, otherwise a mandatory argument (none of them
     is ever given in these runs) is reported missing *)
-Definition eval_case (f : N) (width : nat) (user : list arg) (cs : list cmd) : res hstate :=
+Definition eval_case_with (f : N) (width : nat) (user : list arg) (cs : list cmd) : res hstate :=
   let args := start_args f ++ user in
-  do s <- eval_cmds f width args (mkh (start_params f) [] [] false) cs;
+  do s <- eval_cmds_with f width args (mkh (start_params f) [] [] false) cs;
   if hprinted s then Ok s
   else if existsb mandatory args then Err ERuntime
   else Ok s.
+End Eval.
+
+Definition eval_cmds := eval_cmds_with eval_cmd.
+Definition eval_case := eval_case_with eval_cmd.
+Definition eval_case_pinned := eval_case_with eval_cmd_pinned.
 
 (* ------------------------------------------------------------------ *)
 (** * the layout-insensitive reading of a usage text (the property observable)
